@@ -156,6 +156,10 @@ def base_isa(consts):
         # @OP is the operand as written: `[[x]]` stays deferred, `[x]` stays indirect
         'ldd2': [{'operands': {'count': 2, 'operand_sets': {'list': ['regs', 'defm']}},
                   'instructions': ['ldd @OP(0), @OP(1)', 'ldd @REG(0), [[@ARG(1) + 2]]', 'ldd @REG(0), [@ARG(1)]']}],
+        # a specific form first, a general form (that also takes the specific operand) second
+        'inc2': [{'operands': {'count': 1, 'specific_operands': {'acc': {'list': {'r': {'type': 'register', 'register': 'ra'}}}}},
+                  'instructions': ['add ra, ra']},
+                 {'operands': {'count': 1, 'operand_sets': {'list': ['regs']}}, 'instructions': ['add @REG(0), rb', 'nop']}],
         'badarg': [{'operands': {'count': 1, 'operand_sets': {'list': ['regs']}}, 'instructions': ['ldi ra, @ARG(0)']}],
         'badreg': [{'operands': {'count': 1, 'operand_sets': {'list': ['imm8']}}, 'instructions': ['ldi @REG(0), 1']}],
         'badidx': [{'operands': {'count': 1, 'operand_sets': {'list': ['imm8']}}, 'instructions': ['ldi ra, @ARG(1)']}],
@@ -192,6 +196,8 @@ CATALOGUE = [
      ['ok/ok', 'rejected/rejected']),
     ('full-text-of-indirect-operand', 'ldd2 rb, [ v1 ]', 'ldd rb, [ v1 ]\nldd rb, [[v1 + 2]]\nldd rb, [v1]', {'v1': vrange(16)},
      ['ok/ok', 'rejected/rejected']),
+    ('variant-choice-independent-of-earlier-invocations', 'inc2 rb\ninc2 ra\ninc2 rb\ninc2 ra',
+     'add rb, rb\nnop\nadd ra, ra\nadd rb, rb\nnop\nadd ra, ra', {}, ['ok/ok']),
     ('two-invocations', 'a1: jj a1\nnn\na2: jj a1', 'a1: nop\njr a1\nn4\nnop\na2: nop\njr a1', {}, ['ok/ok']),
     ('label-between-macros', 'nn\nmid: jj mid\nldi2 ra, LSB(mid)', 'n4\nnop\nmid: nop\njr mid\nldi ra, LSB(mid)\nldi ra, LSB(mid) + 1',
      {}, ['ok/ok', 'rejected/rejected']),
